@@ -1,4 +1,10 @@
 import PortusModel.Props.C05
+import PortusModel.Props.C05History
+#print axioms Portus.C05.install_before_use
+#print axioms Portus.C05.install_before_use_sf
+#print axioms Portus.C05.install_before_use_trace
+#print axioms Portus.C05.installedOk_sound
+#print axioms Portus.C05.runHistSf_cons
 #print axioms Portus.C05.ready_installs_all
 #print axioms Portus.C05.first_create_installs_before_handler
 #print axioms Portus.C05.no_other_installs
